@@ -4,6 +4,6 @@ CONSTANTS N = 2
  Tables <- TablesSmall
 INVARIANT OwnAssociationOwnData
 PROPERTY AbortIsLocal
-PROPERTY QuitIsLocal
+PROPERTY NoRequestWhileClosing
 PROPERTY NoNewAssociationAfterQuit
 CONSTRAINT Bound
